@@ -14,3 +14,15 @@ package stdlib_contracts
 //@ func StringToAddress   pure trusted
 //@   opt heap-independent
 //@   ensures s == "" ==> result1 != nil
+
+// the low 20 bytes of the number, as an address value: reads its argument only
+//@ func BigToAddress   trusted
+//@   modifies nothing
+
+//@ package common/math
+
+// x + y with an overflow flag (`return x + y, y > MaxUint64-x`; the package is outside the loaded set)
+//@ func SafeAdd   trusted
+//@   modifies nothing
+//@   ensures result1 == (int(x) + int(y) > 18446744073709551615)
+//@   ensures !result1 ==> int(result0) == int(x) + int(y)
